@@ -457,9 +457,13 @@ func (gen *generator) getIndex(index ast.Constant) gep.Index {
 					}
 				}
 			default:
-				// TODO: remove debug output.
-				panic(fmt.Errorf("support for gep index vector element type %T not yet implemented", elem))
-				//return gep.Index{HasVal: false}
+				// an element without concrete integer value (e.g. undef, poison, a
+				// boolean or a constant expression); the index vector does not have
+				// a concrete value.
+				return gep.Index{
+					HasVal:    false,
+					VectorLen: uint64(len(elems)),
+				}
 			}
 		}
 		return gep.Index{
